@@ -66,9 +66,14 @@ def run_job(job, timeout_ms=10000, second_opinion=False):
     out = {"tag": job.tag, "func": job.func, "module": job.module, "results": [], "error": None,
            "expect": job.expect, "inapplicable": None}
     try:
-        m = load_module(job.module, job.lang)
-        table = m["cfuncs"] if job.lang == "c" else m["funcs"]
-        f = table.get(job.func)
+        if job.lang == "py":
+            from .front_py import parse_region
+            m = {"funcs": {}, "cfuncs": {}, "externs": {}, "module_vars": {}}
+            f = parse_region(build.src(*job.module.split("/")), job.func, job.contract.region)
+        else:
+            m = load_module(job.module, job.lang)
+            table = m["cfuncs"] if job.lang == "c" else m["funcs"]
+            f = table.get(job.func)
         if f is None:
             out["inapplicable"] = f"function {job.func} not found in {job.module} ({job.lang})" + \
                 (f"; C front end: {m['c_error']}" if job.lang == "c" and m.get("c_error") else "")
